@@ -117,8 +117,9 @@ def plan(tier, seed):
             dict(scenario="cos", params=dict(submitters=1, resubmit=True), bounds=dict(lpredict=True, P=2, post_release=True)),
         ]
     return [
-        dict(scenario="cos", params=dict(submitters=2, per_thread=2), bounds=dict(lpredict=True, P=2, post_release=True)),
-        dict(scenario="cos", params=dict(submitters=1, per_thread=2), bounds=dict(lpredict=True, P=3, post_release=True)),
+        dict(scenario="cos", params=dict(submitters=2, per_thread=2), bounds=dict(lpredict=True, P=3, post_release=True)),
+        dict(scenario="cos", params=dict(submitters=1, per_thread=2), bounds=dict(lpredict=True, P=4, post_release=True)),
+        dict(scenario="cos", params=dict(submitters=3), bounds=dict(lpredict=True, P=2, post_release=True)),
         dict(scenario="cos", params=dict(submitters=1), bounds=dict(lpredict=True, P=3, gran=1, post_release=True)),
         dict(scenario="cos", params=dict(submitters=2, resubmit=True), bounds=dict(lpredict=True, P=2, post_release=True)),
     ]
